@@ -43,7 +43,7 @@ func ReceiveSession(ctx context.Context, addr jid.JID, secret []byte, rw io.Read
 //
 // It currently only supports the client side of the component protocol.
 // If recv is true (indicating that we are receiving a connection on the server
-// side) the returned xmpp.Negotiator will panic.
+// side) the returned xmpp.Negotiator returns an error.
 func Negotiator(addr jid.JID, secret []byte, recv bool) xmpp.Negotiator {
 	return func(ctx context.Context, in, out *stream.Info, s *xmpp.Session, _ interface{}) (mask xmpp.SessionState, _ io.ReadWriter, _ interface{}, err error) {
 		r := s.TokenReader()
@@ -53,7 +53,7 @@ func Negotiator(addr jid.JID, secret []byte, recv bool) xmpp.Negotiator {
 		if recv {
 			// If we're the receiving entity wait for a new stream, then send one in
 			// response.
-			panic("component: receiving connections not yet implemented")
+			return mask, nil, nil, errors.New("component: receiving connections not yet implemented")
 		} else {
 			// If we're the initiating entity, send a new stream and then wait for one
 			// in response.
